@@ -81,7 +81,17 @@ def build(ctx, case, choices=None, allow_timer_choice=True):
         elif kind == "late":
             g.sched.late.add(sidx)
         sc.faulty[sidx] = kind
-    # ---- ground truth
+    ground_truth(sc)
+    g.sched.choices, g.sched.ci = list(choices or []), 0
+    # the reader's default maximum segment size (basis of its initial guess) may be smaller than the file's real segment size
+    from allmydata.immutable.downloader.node import DownloadNode
+    from allmydata.interfaces import DEFAULT_IMMUTABLE_MAX_SEGMENT_SIZE
+    DownloadNode.default_max_segment_size = case.get("guess") or DEFAULT_IMMUTABLE_MAX_SEGMENT_SIZE
+    return sc
+
+
+def ground_truth(sc):
+    """(re)compute sc.gplus / sc.gminus from sc.placed, sc.damaged, sc.faulty"""
     # a share file shorter than the 12-byte container header makes the server's whole get_buckets() answer an error (ShareFile.__init__ raises), so that
     # server does not "answer" for this storage index: none of its shares count
     sc.erroring = set()
@@ -99,12 +109,21 @@ def build(ctx, case, choices=None, allow_timer_choice=True):
         if dk not in CERTAIN and fk not in ("down", "fail-dyhb", "dead-dyhb"):
             good_minus.add(shnum)
     sc.gplus, sc.gminus = len(good_plus), len(good_minus)
-    g.sched.choices, g.sched.ci = list(choices or []), 0
-    # the reader's default maximum segment size (basis of its initial guess) may be smaller than the file's real segment size
-    from allmydata.immutable.downloader.node import DownloadNode
-    from allmydata.interfaces import DEFAULT_IMMUTABLE_MAX_SEGMENT_SIZE
-    DownloadNode.default_max_segment_size = case.get("guess") or DEFAULT_IMMUTABLE_MAX_SEGMENT_SIZE
-    return sc
+
+
+def damage_more(sc, entries):
+    """second-phase damage (after a read): entries [[server, shnum, kind, arg],...] addressed like the first phase; only undamaged shares are touched"""
+    done = []
+    for sidx, shnum, kind, arg in entries:
+        keys = sorted(kx for kx in sc.placed if kx not in sc.damaged)
+        if not keys:
+            break
+        key = keys[(sidx * 31 + shnum) % len(keys)]
+        if apply_damage(sc.placed[key], kind, arg):
+            sc.damaged[key] = kind
+            done.append(key)
+    ground_truth(sc)
+    return done
 
 
 def apply_damage(path, kind, arg):
